@@ -53,6 +53,12 @@ def run(an: Analysis, rep):
     from rules.common import SharedRules, ordering_rule
     from rules import c08
     rep.run(c08.r084, an, SharedRules(rep, "R14.K", "equality of nested code objects (which the once-only set of __iter__ uses) tells apart what CPython tells apart (shared with C08's R08.4): otherwise a distinct code object is swallowed as 'already seen'"), rule="R14.K")
+    from rules import c09
+    sht = SharedRules(rep, "R14.T", "the decoder's table bookkeeping (shared with C09's R09.7 / R09.3 / C08's R08.2): a nested code object loaded by two instructions must decode to one and the same Constant "
+                                     "(else __iter__ yields it twice), and one that no instruction loads must be listed among the unreferenced entries (else it is never yielded)")
+    rep.run(c09.table_sequences_rule, an, sht)
+    rep.run(c09.unreferenced_rules, an, sht)
+    rep.run(c08.r082, an, sht)
     rep.run(ordering_rule, an, rep, "R14.5", ["iter", "all_code_data"])
     tg = an.tg
     ci = an.prog.cls(ROOT)
